@@ -49,7 +49,7 @@ from bounded.reftree import (
 
 MODULE = "checks.bounded_C13"
 
-METHOD_NAMES = {1: "direct", 2: "self", 4: "context"}
+METHOD_NAMES = {1: "direct-embedding", 2: "self-embedding", 4: "context-addition"}
 
 EXTRA_GRAMMARS: Dict[str, Dict[str, List[str]]] = {
     "midrec": {"<start>": ["<A>"], "<A>": ["(<A>)", "<A><A>x", "y"]},
@@ -107,21 +107,21 @@ def host_class(host) -> str:
     return "open-host" if ref_open(host) else "closed-host"
 
 
-def check_case(grammar, host, x, methods: int, k: Optional[int]) -> Tuple[List[dict], int]:
-    """-> (failures, number of results)"""
+def input_class(host, x) -> str:
+    """Deterministic input class for signatures: kind of x.  For ISLa's internal
+    validity asserts the class is instead whether host or x contain an epsilon
+    expansion written as a child node '' (the style GrammarFuzzer produces),
+    see check_case."""
+    return x_class(x)
+
+
+def has_epsilon_child(host, x) -> bool:
+    return any(n.value == "" for t in (host, x) for _, n in ref_paths(t))
+
+
+def _raw_check(grammar, host, x, methods: int, k: Optional[int]) -> Tuple[List[Tuple[str, str]], int]:
+    """-> ([(kind, detail)], number of results)"""
     from isla.existential_helpers import insert_tree
-
-    cls = f"{x_class(x)}:{host_class(host)}"
-    mname = methods_name(methods)
-    fails: List[dict] = []
-
-    def fail(kind: str, detail: str):
-        fails.append(dict(
-            signature=f"insert_tree[{mname}]:{kind}:{cls}",
-            what=f"grammar={grammar!r} host={show(host)} x={show(x)} methods={mname} "
-                 f"max_num_solutions={k}: {detail}",
-            case=dict(grammar=grammar, host=tree_to_json(host), x=tree_to_json(x), methods=methods, k=k),
-            size=(len(ref_paths(host)) + len(ref_paths(x)), bin(methods).count("1"), len(repr(grammar)))))
 
     try:
         results = insert_tree(canonical_of(grammar), x, host, graph=graph_of(grammar),
@@ -130,38 +130,66 @@ def check_case(grammar, host, x, methods: int, k: Optional[int]) -> Tuple[List[d
         raise
     except BaseException as exc:  # noqa
         kind, fn = _assert_kind(exc)
-        fail(f"{kind}@{fn}", f"{type(exc).__name__} in {fn}: {str(exc)[:100]}")
-        return fails, 0
+        return [(f"{kind}@{fn}", f"{type(exc).__name__} in {fn}: {str(exc)[:100]}")], 0
     host_ids = ids_of(host)
     x_struct = tree_to_json(x)
     for r in results:
         if r.value != host.value:
-            fail("root-changed", f"result {show(r)} is rooted in {r.value}")
-            break
+            return [("root-changed", f"result {show(r)} is rooted in {r.value}")], len(results)
         if not ref_valid(grammar, r, host.value):
-            fail("result-invalid", f"result {show(r)} is no derivation tree of G")
-            break
+            return [("result-invalid", f"result {show(r)} is no derivation tree of G")], len(results)
         rid = ids_of(r)
         lost = [(i, v) for i, v in host_ids.items() if i not in rid]
         if lost:
-            fail("host-node-lost", f"result {show(r)} lacks host node(s) {[v for _, v in lost]}")
-            break
+            return [("host-node-lost",
+                     f"result {show(r)} lacks host node(s) {[v for _, v in lost]}")], len(results)
         relabelled = [(v, rid[i]) for i, v in host_ids.items() if rid[i] != v]
         if relabelled:
-            fail("host-node-relabelled", f"result {show(r)}: host nodes changed label {relabelled}")
-            break
+            return [("host-node-relabelled",
+                     f"result {show(r)}: host nodes changed label {relabelled}")], len(results)
         if x.id not in rid:
-            fail("inserted-tree-missing", f"result {show(r)} has no node with the id of x")
-            break
+            return [("inserted-tree-missing",
+                     f"result {show(r)} has no node with the id of x")], len(results)
         if rid[x.id] != x.value:
-            fail("inserted-tree-relabelled", f"result {show(r)}: node with x's id is {rid[x.id]}")
-            break
+            return [("inserted-tree-relabelled",
+                     f"result {show(r)}: node with x's id is labelled {rid[x.id]}")], len(results)
         if x.children is not None:
             node = next(n for _, n in ref_paths(r) if n.id == x.id)
             if tree_to_json(node) != x_struct:
-                fail("inserted-tree-changed", f"result {show(r)}: subtree at x's id is {show(node)}")
-                break
-    return fails, len(results)
+                return [("inserted-tree-changed",
+                         f"result {show(r)}: the subtree at x's id is {show(node)}, not x")], len(results)
+    return [], len(results)
+
+
+def check_case(grammar, host, x, methods: int, k: Optional[int]) -> Tuple[List[dict], int]:
+    """-> (failures, number of results).  A failure under a combination of
+    methods is attributed to the first single method of the combination that
+    shows the same kind of failure on the same input (fresh copies)."""
+    raw, nres = _raw_check(grammar, host, x, methods, k)
+    fails: List[dict] = []
+    if not raw:
+        return fails, nres
+    for kind, detail in raw:
+        cls = input_class(host, x)
+        if kind.startswith("internal-validity-assert") and has_epsilon_child(host, x):
+            cls = "tree-with-epsilon-child-node"
+        mname = methods_name(methods)
+        if bin(methods).count("1") > 1:
+            for b in (1, 2, 4):
+                if not methods & b:
+                    continue
+                h2, x2 = from_struct(to_struct(host)), from_struct(to_struct(x))
+                raw2, _ = _raw_check(grammar, h2, x2, b, k)
+                if any(k2 == kind for k2, _ in raw2):
+                    mname = methods_name(b)
+                    break
+        fails.append(dict(
+            signature=f"insert_tree[{mname}]:{kind}:{cls}",
+            what=f"grammar={grammar!r} host={show(host)} x={show(x)} methods={methods_name(methods)} "
+                 f"max_num_solutions={k}: {detail}",
+            case=dict(grammar=grammar, host=tree_to_json(host), x=tree_to_json(x), methods=methods, k=k),
+            size=(len(ref_paths(host)) + len(ref_paths(x)), bin(methods).count("1"), len(repr(grammar)))))
+    return fails, nres
 
 
 # --------------------------------------------------------------------------- #
@@ -186,9 +214,9 @@ def struct_unjson(j):
     return (value, None if children is None else tuple(struct_unjson(c) for c in children))
 
 
-def hosts_for(grammar, start: str, max_nodes: int, cap: int) -> list:
+def hosts_for(grammar, start: str, max_nodes: int, cap: int, eps_style: str = "child") -> list:
     allh = []
-    for st in ref_tree_structs(grammar, start, max_nodes, allow_open=True):
+    for st in ref_tree_structs(grammar, start, max_nodes, allow_open=True, eps_style=eps_style):
         allh.append(st)
         if len(allh) >= 20000:
             break
@@ -198,12 +226,12 @@ def hosts_for(grammar, start: str, max_nodes: int, cap: int) -> list:
     return head + tail
 
 
-def inserts_for(grammar, max_nodes: int, per_nt: int) -> list:
+def inserts_for(grammar, max_nodes: int, per_nt: int, eps_style: str = "child") -> list:
     out = []
     for nt in grammar:
         out.append((nt, None))
         closed = []
-        for st in ref_tree_structs(grammar, nt, max_nodes, allow_open=False):
+        for st in ref_tree_structs(grammar, nt, max_nodes, allow_open=False, eps_style=eps_style):
             closed.append(st)
             if len(closed) >= 50:
                 break
@@ -275,8 +303,8 @@ def run(rep, tier, seed):
     rng = random.Random(seed * 1000003 + 13)
     host_nodes = 7
     x_nodes = 4
-    cap_hosts = 24 if quick else 90
-    per_nt = 1 if quick else 3
+    cap_hosts = 20 if quick else 60
+    per_nt = 1 if quick else 2
     n_random = 4 if quick else 16
     ks = [1, 5, None]
     methods = [1, 2, 3, 4, 5, 6, 7]
@@ -304,12 +332,17 @@ def run(rep, tier, seed):
 
     tasks = []
     for name, g, start in fam:
-        hosts = hosts_for(g, start, host_nodes, cap_hosts)
-        inserts = inserts_for(g, x_nodes, per_nt)
-        hj = [struct_json(h) for h in hosts]
-        xj = [struct_json(x) for x in inserts]
-        for i in range(0, len(hj), 2):
-            tasks.append(dict(gname=name, grammar=g, hosts=hj[i:i + 2], inserts=xj, methods=methods, ks=ks))
+        styles = ["child"] + (["empty"] if BG.nullable_nonterminals(g) else [])
+        for style in styles:
+            # epsilon expansions as the fuzzer writes them (child '') and as the
+            # parser / expand_one_step write them (no child)
+            hosts = hosts_for(g, start, host_nodes, cap_hosts if style == "child" else cap_hosts // 2, style)
+            inserts = inserts_for(g, x_nodes, per_nt, style)
+            hj = [struct_json(h) for h in hosts]
+            xj = [struct_json(x) for x in inserts]
+            for i in range(0, len(hj), 2):
+                tasks.append(dict(gname=name + "/" + style, grammar=g, hosts=hj[i:i + 2], inserts=xj,
+                                  methods=methods, ks=ks))
 
     total = dict(cases=0, with_results=0, results=0, timeouts=0, open_hosts=0, closed_hosts=0)
     by_method: Dict[str, int] = {}
@@ -346,7 +379,7 @@ def run(rep, tier, seed):
 
     if total["with_results"] == 0:
         rep.checker_error("insert_tree never returned a result")
-    for mname in ("direct", "self", "context"):
+    for mname in ("direct-embedding", "self-embedding", "context-addition"):
         if not by_method.get(mname):
             rep.checker_error(f"method {mname} alone never produced a result")
     if total["open_hosts"] == 0 or total["closed_hosts"] == 0:
